@@ -368,9 +368,9 @@ impl MqttState {
                 "PubAck Pkid = {:?}, reason: {:?}",
                 puback.pkid, puback.reason
             );
-            return Ok(None);
         }
 
+        // refused or not, the packet id is free again: release a publish that was waiting for it
         if let Some(publish) = self.check_collision(puback.pkid) {
             self.outgoing_pub[publish.pkid as usize] = Some(publish.clone());
             self.inflight += 1;
@@ -406,7 +406,19 @@ impl MqttState {
             );
             // the broker refused the publish: the flow ends here, no PUBREL / PUBCOMP follows
             self.inflight -= 1;
-            return Ok(None);
+
+            // the packet id is free again: release a publish that was waiting for it
+            let outgoing = self.check_collision(pubrec.pkid).map(|publish| {
+                self.outgoing_pub[publish.pkid as usize] = Some(publish.clone());
+                self.inflight += 1;
+
+                let event = Event::Outgoing(Outgoing::Publish(publish.pkid));
+                self.events.push_back(event);
+                self.collision_ping_count = 0;
+
+                Packet::Publish(publish)
+            });
+            return Ok(outgoing);
         }
 
         // NOTE: Inflight - 1 for qos2 in comp
